@@ -80,7 +80,9 @@ def readTokens (s : ArrSt) (reqType : String) (raw : List String) : Option (List
 /-- the hyperslab an (offset, count) request addresses in an array of the given shape (as `offsetCount2DataSpaces`) -/
 def resolveBox (shape cnt off : Idx) : Option (Idx × Idx) :=
   if off.isEmpty && !cnt.isEmpty then (if prod cnt == prod shape then some (zeros shape.length, shape) else none)
-  else some (off, if cnt.isEmpty then List.replicate off.length 1 else cnt)
+  else
+    let cnt' := if cnt.isEmpty then List.replicate off.length 1 else cnt
+    some (off.take shape.length, cnt'.take shape.length)
 
 def implOk (impl : List String) : Bool := impl.head? == some "ok"
 
@@ -303,5 +305,65 @@ def handle (st : DState) (op : String) (args impl : List String) : Option (DStat
     | none, _ => noArr
     | _, _ => (st, .malformed "dv_wr")
   | _ => none
+
+/-! ### typed transfers of one value / of a vector the library sizes (templates of include/nix/DataSet.hpp over Hydra)
+
+The count the library derives: a single value is ONE element — `data_traits<T>::resize` accepts an empty count or a count of one
+element, an empty count then stands for ones (one per dimension of the data set), never for "all of it"; `getData(value, offset)` /
+`setData(value, offset)` use one per offset entry (one per dimension when the offset is empty too); a `std::vector` is resized to the
+only count entry above 1 (`InvalidRank` when there are two, `std::out_of_range` for an empty count). The transfer itself is the raw
+one (`da_rd` / `dv_rd` / `da_wr` / `dv_wr`) with that count. -/
+
+def typedCount (how : String) (rank : Nat) (cnt off : Idx) : Except Err Idx :=
+  match how with
+  | "rd3" => if !(cnt.isEmpty || prod cnt == 1) then .error .invalidRank else .ok (if cnt.isEmpty then List.replicate rank 1 else cnt)
+  | "vec" => if cnt.isEmpty then .error .stdOutOfRange else if (cnt.filter (· > 1)).length > 1 then .error .invalidRank else .ok cnt
+  | _ => .ok (if off.isEmpty then List.replicate rank 1 else List.replicate off.length 1)
+
+/-- the size `data_traits<std::vector<T>>::resize` gives the vector -/
+def vecSize (cnt : Idx) : Nat :=
+  match (cnt.zipIdx.filter (·.1 > 1)).getLast? with
+  | some (n, _) => n
+  | none => cnt.headD 0
+
+def retag (p : String) : Out → Out
+  | .ok t => .ok (p ++ t)
+  | .diff t m => .diff (p ++ t) m
+  | .rel t r => .rel (p ++ t) r
+  | o => o
+
+def handleTyped (st : DState) (op : String) (args impl : List String) : Option (DState × Out) :=
+  match op, args with
+  | "da_one", [how, dt, arg, offT] | "dv_one", [how, dt, arg, offT] =>
+    let viaView := op == "dv_one"
+    let raw (o : String) := if viaView then "dv_" ++ o else "da_" ++ o
+    match st.arr, parseIdx offT with
+    | some s, some off =>
+      if viaView && s.view.isNone then some (st, cmp "dv_one.noview" ["ok", "no-view"] impl) else
+      let rank := if viaView then (s.view.map (·.count.length)).getD 0 else s.arr.shape.length
+      let cnt? : Option Idx := if how == "rd3" || how == "vec" then parseIdx arg else some []
+      match cnt? with
+      | none => some (st, .malformed "da_one count")
+      | some cnt =>
+        match typedCount how rank cnt off with
+        | .error e => some (st, cmp s!"{op}.{how}.{e.name}" (errTok e) impl)
+        | .ok c =>
+          let tag := s!"{how}."
+          if how == "wr2" then (handle st (raw "wr") [dt, fmtIdx c, offT, fmtList [arg]] impl).map fun r => (r.1, retag tag r.2)
+          else if how == "vec" then
+            -- the vector comes back with the size the library gave it; what the transfer did not fill is value-initialised
+            let n := prod c
+            let impl' := match impl with
+              | ["ok", toks] =>
+                (match parseList toks with
+                 | some l => if l.length == vecSize c && (l.drop n).all (· == zeroTok dt) then ["ok", fmtList (l.take n)] else ["ok", "[!size]"]
+                 | none => impl)
+              | _ => impl
+            if impl' == ["ok", "[!size]"] then some (st, .rel s!"{op}.vec" "vector_has_the_size_of_the_count") else
+            (handle st (raw "rd") [dt, fmtIdx c, offT, toString n] impl').map fun r => (r.1, retag tag r.2)
+          else (handle st (raw "rd") [dt, fmtIdx c, offT, "1"] impl).map fun r => (r.1, retag tag r.2)
+    | none, _ => some (st, .malformed (op ++ " without array"))
+    | _, none => some (st, .malformed (op ++ " offset"))
+  | _, _ => none
 
 end Nix.Drive.Array
